@@ -49,6 +49,76 @@ def _member_iter(node):
     return None
 
 
+# raysect: the radiance pipelines derive from the power pipelines
+_PIPELINE_BASE = {'RadiancePipeline0D': 'PowerPipeline0D', 'SpectralRadiancePipeline0D': 'SpectralPowerPipeline0D'}
+
+
+def _class_set(mi, e, depth=0):
+    """the classes an isinstance() second argument names: a class, a tuple, a module-level tuple constant, a sum of those"""
+    if isinstance(e, ast.Tuple):
+        out = set()
+        for x in e.elts:
+            r = _class_set(mi, x, depth)
+            if r is None:
+                return None
+            out |= r
+        return out
+    if isinstance(e, ast.BinOp) and isinstance(e.op, ast.Add):
+        a, b = _class_set(mi, e.left, depth), _class_set(mi, e.right, depth)
+        return None if a is None or b is None else a | b
+    if isinstance(e, ast.Name):
+        if e.id in mi.assigns and depth < 4:
+            return _class_set(mi, mi.assigns[e.id], depth + 1)
+        return {e.id}
+    if isinstance(e, ast.Attribute):
+        return {e.attr}
+    return None
+
+
+def _reduced(cs):
+    return {c for c in cs if _PIPELINE_BASE.get(c) not in cs}
+
+
+def _r5(run, prog):
+    """R5: what a group broadcasts to its members is stored by the member: the member observer's setter reaches the same pipelines its
+    getter reads the value back from (the same isinstance filter on both sides)."""
+    run.describe('C15-R5', 'member observers: a property setter filters the pipelines with the same types as its getter (what is assigned is what is read back)')
+    rel = 'cherab/tools/observers/spectroscopy/base.py'
+    mi = prog.load(rel, required=False)
+    if mi is None:
+        raise AnalysisError('anchored source file vanished: %s' % rel)
+    run.use_file(rel)
+    for cname, cnode in sorted(mi.classes.items()):
+        ci = prog.classes.get(mi.name + '.' + cname)
+        if ci is None:
+            continue
+        for pname in sorted(set(ci.getters) & set(ci.setters)):
+            g, s_ = ci.getters[pname], ci.setters[pname]
+
+            def filt(fn):
+                out = []
+                for c in ast.walk(fn):
+                    if isinstance(c, ast.Call) and dotted(c.func) == 'isinstance' and len(c.args) == 2 and isinstance(c.args[0], ast.Name) \
+                            and c.args[0].id not in {a.arg for a in fn.args.args}:
+                        out.append(_class_set(mi, c.args[1]))
+                return out
+            fg, fs = filt(g), filt(s_)
+            if not fg and not fs:
+                continue
+            run.subject('C15-R5')
+            if None in fg or None in fs or len(fg) != 1 or len(fs) != 1:
+                run.undecided('C15-R5', '%s.%s' % (cname, pname), 'type filters not recognised')
+                continue
+            if _reduced(fg[0]) == _reduced(fs[0]):
+                run.ok('C15-R5', '%s.%s' % (cname, pname), 'getter and setter both filter on %s' % sorted(_reduced(fg[0])))
+            else:
+                run.fail('C15-R5', '%s|%s|%s|filter' % (mi.name, cname, pname), rel, s_.lineno,
+                         "%s.%s: the setter reaches the pipelines of type %s but the getter reads the value from %s: a value assigned (by a group "
+                         "to its members) is not stored on the pipelines it is read back from"
+                         % (cname, pname, sorted(_reduced(fs[0])), sorted(_reduced(fg[0]))))
+    run.floor('C15-R5', 2)
+
+
 def check(run):
     prog = Program()
     _PROG[0] = prog
@@ -131,6 +201,7 @@ def check(run):
     run.floor('C15-R2', 60, 'obligations')
     run.floor('C15-R3', 60, 'obligations')
     run.floor('C15-R4', 12, 'obligations')
+    _r5(run, prog)
     from ..cachekey import check_caches
     check_caches(run, [m for k, m in prog.modules.items() if k.startswith('cherab.tools.observers')], 'C15-K', prog=prog)
 
